@@ -559,12 +559,19 @@ func (w *Worker) elemPtr(elems []Value, backing []Value, idx *Term) Ptr {
 	return Ptr{idx: idx64, cells: elems, back: backing, cand: cand}
 }
 
+func (w *Worker) index64(idx *Term, t types.Type) *Term {
+	if idx.W < 64 {
+		if isSigned(t) {
+			return w.B.SExt(idx, 64)
+		}
+		return w.B.ZExt(idx, 64)
+	}
+	return idx
+}
+
 func (w *Worker) indexAddr(fr *frame, ins *ssa.IndexAddr) Ptr {
 	x := w.get(fr, ins.X)
-	idx := w.get(fr, ins.Index).(*Term)
-	if isSigned(ins.Index.Type()) && idx.W < 64 {
-		idx = w.B.SExt(idx, 64)
-	}
+	idx := w.index64(w.get(fr, ins.Index).(*Term), ins.Index.Type())
 	switch xv := x.(type) {
 	case SliceV:
 		return w.elemPtr(xv.s, xv.s[:cap(xv.s)], idx)
@@ -600,10 +607,7 @@ func (w *Worker) indexAddr(fr *frame, ins *ssa.IndexAddr) Ptr {
 
 func (w *Worker) indexOp(fr *frame, ins *ssa.Index) Value {
 	x := w.get(fr, ins.X)
-	idx := w.get(fr, ins.Index).(*Term)
-	if isSigned(ins.Index.Type()) && idx.W < 64 {
-		idx = w.B.SExt(idx, 64)
-	}
+	idx := w.index64(w.get(fr, ins.Index).(*Term), ins.Index.Type())
 	switch xv := x.(type) {
 	case ArrayV:
 		return w.load(w.elemPtr(xv, xv, idx))
@@ -626,10 +630,7 @@ func (w *Worker) lookup(fr *frame, ins *ssa.Lookup) Value {
 	x := w.get(fr, ins.X)
 	switch xv := x.(type) {
 	case StrV:
-		idx := w.get(fr, ins.Index).(*Term)
-		if isSigned(ins.Index.Type()) && idx.W < 64 {
-			idx = w.B.SExt(idx, 64)
-		}
+		idx := w.index64(w.get(fr, ins.Index).(*Term), ins.Index.Type())
 		return w.strIndex(xv, idx)
 	case *MapV:
 		v, ok := w.mapLookup(xv, w.get(fr, ins.Index), ins.X.Type().Underlying().(*types.Map).Elem())
